@@ -306,4 +306,212 @@ theorem nodup_labeling {n : Nat} {vs : List Nat} {b : BDD} (ho : OrdAbove n b) (
   intro v hv
   exact List.map_inj_left.1 e v (mem_sortU.1 hv)
 
+/-! ### the rows enumerated by `allBits` -/
+
+theorem mem_allBits : ∀ (n : Nat) (bits : List Bool), bits ∈ allBits n ↔ bits.length = n
+  | 0, bits => by simp [allBits, List.length_eq_zero_iff]
+  | n + 1, bits => by
+    simp only [allBits, List.mem_append, List.mem_map, mem_allBits n]
+    constructor
+    · rintro (⟨r, h, rfl⟩ | ⟨r, h, rfl⟩) <;> simp [h]
+    · intro h
+      match bits, h with
+      | x :: r, h =>
+        cases x
+        · exact Or.inl ⟨r, by simpa using h, rfl⟩
+        · exact Or.inr ⟨r, by simpa using h, rfl⟩
+
+theorem sorted_allBits : ∀ (n : Nat), (allBits n).Pairwise RowLt
+  | 0 => by simp [allBits]
+  | n + 1 => by
+    simp only [allBits]
+    rw [List.pairwise_append]
+    refine ⟨?_, ?_, ?_⟩
+    · exact List.pairwise_map.2 ((sorted_allBits n).imp (fun h => List.Lex.cons h))
+    · exact List.pairwise_map.2 ((sorted_allBits n).imp (fun h => List.Lex.cons h))
+    · intro a ha c hc
+      obtain ⟨a', _, rfl⟩ := List.mem_map.1 ha
+      obtain ⟨c', _, rfl⟩ := List.mem_map.1 hc
+      exact List.Lex.rel (by decide)
+
+theorem nodup_allBits (n : Nat) : (allBits n).Nodup :=
+  (sorted_allBits n).imp (fun {a c} (h : RowLt a c) (e : a = c) => rowLt_irrefl c (e ▸ h))
+
+/-! ### the store: sat/1 and taut/2 with posted constraints -/
+
+theorem post_spec {S : Nat → Prop} {fr : Nat} {st : BDD} {f : Fm} (hst : Good S st)
+    (hv : ∀ v ∈ f.allVars, v < fr) :
+    (post fr st f = none ↔ ∀ ρ, ¬ (st.eval ρ = true ∧ f.eval ρ = true)) ∧
+    ∀ st', post fr st f = some st' →
+      Good (fun v => S v ∨ v ∈ f.allVars) st' ∧ ∀ ρ, st'.eval ρ = (st.eval ρ && f.eval ρ) := by
+  have hb := build_good f hv
+  have hg : Good (fun v => S v ∨ v ∈ f.allVars) (apply .and st (f.build fr)) :=
+    Good.apply _ (hst.mono fun _ h => Or.inl h) (hb.mono fun _ h => Or.inr h)
+  have hev : ∀ ρ, (apply .and st (f.build fr)).eval ρ = (st.eval ρ && f.eval ρ) := fun ρ => by
+    simp [eval_apply, Op.fn, build_eval f hv]
+  unfold post
+  constructor
+  · simp only
+    split
+    · next e =>
+      simp only [true_iff]
+      intro ρ
+      have := (eq_leaf_false_iff hg.ord hg.red).1 e ρ
+      rw [hev] at this
+      simpa using this
+    · next ne =>
+      simp only [reduceCtorEq, false_iff]
+      intro h
+      apply ne
+      apply (eq_leaf_false_iff hg.ord hg.red).2
+      intro ρ
+      rw [hev]
+      have := h ρ
+      cases h1 : st.eval ρ <;> cases h2 : f.eval ρ <;> simp_all
+  · intro st' h
+    simp only at h
+    split at h
+    · cases h
+    · cases h; exact ⟨hg, hev⟩
+
+theorem tautUnder_spec {S : Nat → Prop} {fr : Nat} {st : BDD} {f : Fm} (hst : Good S st)
+    (hv : ∀ v ∈ f.allVars, v < fr) :
+    (tautUnder fr st f = some false ↔ ∀ ρ, ¬ (st.eval ρ = true ∧ f.eval ρ = true)) ∧
+    (tautUnder fr st f = some true ↔
+      (∃ ρ, st.eval ρ = true ∧ f.eval ρ = true) ∧ ∀ ρ, st.eval ρ = true → f.eval ρ = true) := by
+  have hb := (build_good f hv).mono (T := fun _ => True) (fun _ _ => trivial)
+  have hst' := hst.mono (T := fun _ => True) (fun _ _ => trivial)
+  have hg1 : Good (fun _ => True) (apply .and st (f.build fr)) := Good.apply _ hst' hb
+  have hg2 : Good (fun _ => True) (apply .and (apply .xor (leaf true) (f.build fr)) st) :=
+    Good.apply _ (Good.apply _ Good.leaf hb) hst'
+  have h1 : apply .and st (f.build fr) = leaf false ↔ ∀ ρ, ¬ (st.eval ρ = true ∧ f.eval ρ = true) := by
+    rw [eq_leaf_false_iff hg1.ord hg1.red]
+    refine forall_congr' fun ρ => ?_
+    simp only [eval_apply, Op.fn, build_eval f hv]
+    cases st.eval ρ <;> cases f.eval ρ <;> simp
+  have h2 : apply .and (apply .xor (leaf true) (f.build fr)) st = leaf false ↔
+      ∀ ρ, st.eval ρ = true → f.eval ρ = true := by
+    rw [eq_leaf_false_iff hg2.ord hg2.red]
+    refine forall_congr' fun ρ => ?_
+    simp only [eval_apply, Op.fn, build_eval f hv, eval]
+    cases st.eval ρ <;> cases f.eval ρ <;> simp
+  unfold tautUnder
+  by_cases c1 : apply .and st (f.build fr) = leaf false
+  · simp only [c1, if_true, true_iff, false_iff, Option.some.injEq, Bool.false_eq_true]
+    refine ⟨h1.1 c1, ?_⟩
+    rintro ⟨⟨ρ, hρ⟩, _⟩
+    exact h1.1 c1 ρ hρ
+  · have hex : ∃ ρ, st.eval ρ = true ∧ f.eval ρ = true := by
+      apply Classical.byContradiction
+      intro hne
+      exact c1 (h1.2 (fun ρ hρ => hne ⟨ρ, hρ⟩))
+    simp only [c1, if_false]
+    by_cases c2 : apply .and (apply .xor (leaf true) (f.build fr)) st = leaf false
+    · simp only [c2, if_true, Option.some.injEq, Bool.true_eq_false, false_iff, true_iff]
+      exact ⟨fun h => c1 (h1.2 h), hex, h2.1 c2⟩
+    · simp only [c2, if_false, reduceCtorEq, false_iff]
+      exact ⟨fun h => c1 (h1.2 h), fun h => c2 (h2.2 h.2)⟩
+
+/-! ### sat_count/2 with posted constraints -/
+
+theorem supp_self : ∀ (b : BDD), Supp (· ∈ b.vars) b
+  | .leaf _ => trivial
+  | .node v l h => ⟨by simp [vars], (supp_self l).mono (fun w hw => by simp [vars, hw]),
+      (supp_self h).mono (fun w hw => by simp [vars, hw])⟩
+
+theorem foldl_exQ_spec {S : Nat → Prop} : ∀ (others : List Nat) (b : BDD),
+    Good (fun v => S v ∨ v ∈ others) b →
+    Good S (others.foldl (fun b v => exQ v b) b) ∧
+    ∀ ρ, ((others.foldl (fun b v => exQ v b) b).eval ρ = true ↔
+      ∃ ρ', (∀ v, v ∉ others → ρ' v = ρ v) ∧ b.eval ρ' = true)
+  | [], b, hb => by
+    refine ⟨hb.mono (fun v h => by simpa using h), fun ρ => ⟨fun h => ⟨ρ, fun _ _ => rfl, h⟩, ?_⟩⟩
+    rintro ⟨ρ', h1, h2⟩
+    have : ρ' = ρ := funext (fun v => h1 v (by simp))
+    subst this; exact h2
+  | w :: ws, b, hb => by
+    have hq : Good (fun v => S v ∨ v ∈ ws) (exQ w b) :=
+      (hb.exQ' w).mono (fun v h => by
+        rcases h with ⟨h | h, hne⟩
+        · exact Or.inl h
+        · rcases List.mem_cons.1 h with h | h
+          · exact absurd h hne
+          · exact Or.inr h)
+    have ih := foldl_exQ_spec ws (exQ w b) hq
+    simp only [List.foldl_cons]
+    refine ⟨ih.1, fun ρ => ?_⟩
+    rw [ih.2 ρ]
+    constructor
+    · rintro ⟨ρ1, h1, h2⟩
+      rw [eval_exQ hb.ord, Bool.or_eq_true] at h2
+      rcases h2 with h2 | h2
+      · exact ⟨upd ρ1 w false, fun v hv => by
+          simp only [List.mem_cons, not_or] at hv
+          rw [upd_ne hv.1]; exact h1 v hv.2, h2⟩
+      · exact ⟨upd ρ1 w true, fun v hv => by
+          simp only [List.mem_cons, not_or] at hv
+          rw [upd_ne hv.1]; exact h1 v hv.2, h2⟩
+    · rintro ⟨ρ', h1, h2⟩
+      refine ⟨upd ρ' w (ρ w), fun v hv => ?_, ?_⟩
+      · by_cases e : v = w
+        · subst e; simp
+        · rw [upd_ne e]; exact h1 v (by simp [e, hv])
+      · rw [eval_exQ hb.ord, Bool.or_eq_true]
+        have hupd : upd (upd ρ' w (ρ w)) w (ρ' w) = ρ' := by
+          funext v; simp only [upd]; split <;> simp_all
+        cases hw : ρ' w
+        · left; rw [← hw, hupd]; exact h2
+        · right
+          have : upd (upd ρ' w (ρ w)) w true = ρ' := by rw [← hw]; exact hupd
+          rw [this]; exact h2
+
+/-- `sat_count/2` after posted constraints: the number of assignments of the expression's
+    variables that can be extended to a model of store ∧ expression. -/
+theorem satCountUnder_spec {S : Nat → Prop} {fr : Nat} {st : BDD} {f : Fm} (hst : Good S st)
+    (hv : ∀ v ∈ f.allVars, v < fr) :
+    ∃ p : List Bool → Bool,
+      (∀ bits, p bits = true ↔ ∃ ρ, (∀ v ∈ sortU f.allVars, ρ v = envOf (sortU f.allVars) bits v) ∧
+        st.eval ρ = true ∧ f.eval ρ = true) ∧
+      satCountUnder fr st f = ((allBits (sortU f.allVars).length).filter p).length := by
+  have hb := (build_good f hv).mono (T := fun _ => True) (fun _ _ => trivial)
+  have hst' := hst.mono (T := fun _ => True) (fun _ _ => trivial)
+  have hg1 : Good (fun _ => True) (apply .and st (f.build fr)) := Good.apply _ hst' hb
+  have hev : ∀ ρ, (apply .and st (f.build fr)).eval ρ = (st.eval ρ && f.eval ρ) := fun ρ => by
+    simp [eval_apply, Op.fn, build_eval f hv]
+  -- the support of b1 is split into the expression's variables and the others
+  have hsplit : ∀ v ∈ (apply .and st (f.build fr)).vars, v ∈ sortU f.allVars ∨
+      v ∈ (sortU (apply .and st (f.build fr)).vars).filter (fun v => !(sortU f.allVars).contains v) := by
+    intro v hm
+    by_cases h : v ∈ sortU f.allVars
+    · exact Or.inl h
+    · exact Or.inr (by simp [List.mem_filter, mem_sortU, hm]; simpa [mem_sortU] using h)
+  have hg : Good (fun v => v ∈ sortU f.allVars ∨
+      v ∈ (sortU (apply .and st (f.build fr)).vars).filter (fun v => !(sortU f.allVars).contains v))
+      (apply .and st (f.build fr)) :=
+    ⟨hg1.ord, hg1.red, (supp_self _).mono hsplit⟩
+  have hfold := foldl_exQ_spec _ _ hg
+  refine ⟨fun bits => (((sortU (apply .and st (f.build fr)).vars).filter
+      (fun v => !(sortU f.allVars).contains v)).foldl (fun b v => exQ v b)
+      (apply .and st (f.build fr))).eval (envOf (sortU f.allVars) bits), fun bits => ?_, ?_⟩
+  · rw [hfold.2]
+    constructor
+    · rintro ⟨ρ', h1, h2⟩
+      rw [hev, Bool.and_eq_true] at h2
+      refine ⟨ρ', fun v hm => h1 v ?_, h2⟩
+      simp [List.mem_filter, hm]
+    · rintro ⟨ρ, h1, h2, h3⟩
+      -- keep ρ on the support of b1, the row elsewhere
+      refine ⟨fun v => if v ∈ (apply .and st (f.build fr)).vars then ρ v else envOf (sortU f.allVars) bits v,
+        fun v hm => ?_, ?_⟩
+      · show (if v ∈ (apply .and st (f.build fr)).vars then ρ v else envOf (sortU f.allVars) bits v) = _
+        split
+        · next hin =>
+          rcases hsplit v hin with h | h
+          · exact h1 v h
+          · exact absurd h hm
+        · rfl
+      · rw [eval_congr_supp (supp_self _) (ρ' := ρ) (fun v hm => by simp [hm]), hev, h2, h3]; rfl
+  · simp only [satCountUnder]
+    exact satCountBDD_spec (sorted_sortU _) hfold.1
+
 end Scryer.BDD
